@@ -53,6 +53,7 @@ type op struct {
 	Pad     int    `json:"pad,omitempty"`
 	TTLk    int64  `json:"ttl_k,omitempty"`
 	RA      string `json:"ra,omitempty"` // retry-after header value, "-" = header absent
+	RAName  string `json:"ra_name,omitempty"` // spelling of the header name in the response ("" = as configured)
 	Status  int    `json:"status,omitempty"`
 	Sel     int    `json:"sel,omitempty"`
 	DueOnly bool   `json:"due_only,omitempty"`
@@ -331,9 +332,25 @@ func newThrottleT(clk *stepClock, cs *caseSpec) *throttleT {
 func throttleHeaders(o *op) map[string]string {
 	h := map[string]string{"x-id": o.ID, "x-ratelimit-scope": "user"}
 	if o.RA != "-" {
-		h[raHeader] = o.RA
+		name := raHeader
+		if o.RAName != "" {
+			name = o.RAName
+		}
+		h[name] = o.RA
 	}
 	return h
+}
+
+// raOf: header names are case-insensitive; the response may spell the retry-after header differently from the
+// configuration. Whether such a response is stored at all is the engine's business; if it is replayed, the
+// same clauses apply to it.
+func raOf(h map[string]string) (string, bool) {
+	for k, v := range h {
+		if strings.EqualFold(k, raHeader) {
+			return v, true
+		}
+	}
+	return "", false
 }
 
 func (c *throttleT) store(k keySpec, o *op) int {
@@ -494,7 +511,7 @@ func (h *hist) judge(k keySpec, tNs int64, ht *hit, sequential bool, retTick int
 		kind := "cache-ttl"
 		if h.isThrottle() {
 			kind = "throttle-" + h.cs.RAType
-			if r.Headers[raHeader] == "" {
+			if x, _ := raOf(r.Headers); x == "" {
 				kind = "throttle-no-retry-after"
 			} else if h.cs.RAType != "absolute" && r.RaNs < 0 {
 				kind += "-already-passed"
@@ -541,7 +558,7 @@ func (h *hist) judge(k keySpec, tNs int64, ht *hit, sequential bool, retTick int
 	}
 	for hk, hv := range r.Headers {
 		got, present := ht.Headers[hk]
-		if hk == raHeader && h.isThrottle() {
+		if strings.EqualFold(hk, raHeader) && h.isThrottle() {
 			if !present {
 				out = append(out, viol{"C12/retry-after/missing", "replayed throttling response lost its retry-after header"})
 				continue
@@ -685,7 +702,7 @@ func (rn *runner) runCase(idx int, cs *caseSpec) int {
 		h.mu.Unlock()
 		if o != nil {
 			o.Res = "hit:" + bodyID(ht.Body)
-			if v, ok := ht.Headers[raHeader]; ok {
+			if v, ok := raOf(ht.Headers); ok {
 				o.Res += " ra=" + v
 			}
 		}
@@ -1199,6 +1216,9 @@ func genThrottle(r *sim.Rand, idx int) caseSpec {
 	tl := &timeline{r: r, policy: cs.Policy, pfx: fmt.Sprintf("t%d", idx)}
 	store := func(key int) {
 		o := op{K: "store", Key: key, ID: tl.id(), Pad: r.Intn(20), Status: sim.Pick(r, []int{429, 429, 429, 503, 200, 500})}
+		if r.Chance(1, 8) {
+			o.RAName = sim.Pick(r, []string{"retry-after", "RETRY-AFTER", "Retry-after"})
+		}
 		switch x := r.Intn(20); {
 		case x == 0:
 			o.RA = "-"
